@@ -7,6 +7,7 @@ import Unimock.Model.Codegen.Matching
 import Unimock.Model.Render
 import Unimock.Model.Typestate
 import Unimock.Model.Codegen.OutputKind
+import Unimock.Model.LeafRace
 /-!
 # Line protocol: parse scenarios, run them on the model, print the canonical trace
 
@@ -772,5 +773,50 @@ def runKindCase (toks : List String) : String :=
     let k := match toKind r.1 r.2 with | some k => showKind k | none => "none"
     s!"{t.render} {renderDetermined r} {k}"
   | _ => "parse-error"
+
+/-! ## leaf race: `leafrace <id> leaves=<n> threads=<k> picks=<t,t,..>`
+
+A pick lets the chosen thread perform its pending instrumented operation and run on to its next one.
+A request's operations are: bump the pattern counter, then one lock per owned leaf (`LeafRace.step`), and —
+after hitting an empty leaf — one lock to record the error. -/
+
+inductive RacePhase | notStarted | atCount | atLeaf | atPush | finished
+  deriving DecidableEq
+
+def runLeafRace (toks : List String) : String := Id.run do
+  let n := kvNat toks "leaves"
+  let k := kvNat toks "threads"
+  let picks := parseNatList ((kv toks "picks").getD "")
+  let mut st := LeafRace.init n k
+  let mut phases : Array RacePhase := Array.replicate k .notStarted
+  let mut tags : Array (List String) := Array.replicate k []
+  let mut stray := 0
+  for t in picks do
+    match phases[t]? with
+    | none => stray := stray + 1
+    | some ph =>
+      match ph with
+      | .notStarted => phases := phases.set! t .atCount
+      | .atCount =>
+        tags := tags.set! t (tags[t]! ++ ["atomic.fetch_add"])
+        phases := phases.set! t (if n == 0 then .finished else .atLeaf)
+      | .atLeaf =>
+        tags := tags.set! t (tags[t]! ++ ["lock"])
+        st := LeafRace.step st t
+        match st.reqs[t]? with
+        | some r =>
+          if r.failed then phases := phases.set! t .atPush
+          else if n ≤ r.pos then phases := phases.set! t .finished
+        | none => pure ()
+      | .atPush =>
+        tags := tags.set! t (tags[t]! ++ ["lock"])
+        phases := phases.set! t .finished
+      | .finished => stray := stray + 1
+  let outs := (List.range k).map fun t =>
+    match st.reqs[t]?, phases[t]? with
+    | some r, some .finished => if r.received n then "got" else "err"
+    | _, _ => "unfinished"
+  let tagS := "|".intercalate (tags.toList.map fun l => "+".intercalate l)
+  return s!"tags={tagS} outs={"|".intercalate outs} stray={stray}"
 
 end Unimock.Driver
